@@ -68,3 +68,68 @@ def param_mutations(fn):
         if tgt in params:
             out.add(tgt)
     return sorted(out)
+
+
+def state_outside_subscription(tree):
+    """Frame condition of a stream operator: the state an event handler *assigns* (its `nonlocal` variables) is created per
+    subscription.  -> list of (handler qualname, variable, binding function) for every `nonlocal x` of a function nested inside a
+    subscribe function (a function with a parameter named `observer`) whose binding lies OUTSIDE that subscribe function, i.e. in the
+    operator factory: such a variable is shared by all subscriptions of the same operator object."""
+    out = []
+
+    def binds(fn, name):
+        a = fn.args
+        if name in {x.arg for x in a.args + a.kwonlyargs + a.posonlyargs} or (a.vararg and a.vararg.arg == name) or (a.kwarg and a.kwarg.arg == name):
+            return True
+        nl = set()
+        for n in ast.walk(fn):
+            if isinstance(n, (ast.Nonlocal, ast.Global)) and _owner(fn, n) is fn:
+                nl.update(n.names)
+        if name in nl:
+            return False
+        for n in ast.walk(fn):
+            if isinstance(n, ast.Name) and isinstance(n.ctx, ast.Store) and n.id == name and _owner(fn, n) is fn:
+                return True
+        return False
+
+    parents = {}
+    for n in ast.walk(tree):
+        for c in ast.iter_child_nodes(n):
+            parents[c] = n
+
+    def _owner(root, node):
+        x = parents.get(node)
+        while x is not None and not isinstance(x, (ast.FunctionDef, ast.Lambda)):
+            x = parents.get(x)
+        return x
+
+    def chain(node):
+        fs = []
+        x = parents.get(node)
+        while x is not None:
+            if isinstance(x, ast.FunctionDef): fs.append(x)
+            x = parents.get(x)
+        return fs            # innermost first
+
+    for n in ast.walk(tree):
+        if not isinstance(n, ast.Nonlocal):
+            continue
+        fs = chain(n)
+        if not fs:
+            continue
+        g = fs[0]
+        sub = None
+        for f in fs[1:]:
+            if 'observer' in {x.arg for x in f.args.args}:
+                sub = f             # the outermost enclosing subscribe function wins
+        if sub is None:
+            continue
+        inside = set()
+        for f in fs[1:]:
+            inside.add(f)
+            if f is sub: break
+        for name in n.names:
+            binder = next((f for f in fs[1:] if binds(f, name)), None)
+            if binder is not None and binder not in inside:
+                out.append(('.'.join(reversed([f.name for f in fs])), name, binder.name))
+    return out
